@@ -1148,13 +1148,17 @@ def c13(tier, seed):
         steps = [{"start": "A"}]
         prods = {}
         groups = []
+        # producers use the session's channel handle or the executor (FsmExecutor::send_to_session, which takes the lock of
+        # the executor state: producers then contend with each other and with session starts)
+        via_mode = si % 3
         for pi in range(np_):
             g = []
             names = []
+            via_exec = via_mode == 1 or (via_mode == 2 and pi % 2 == 0)
             for k in range(m):
                 nm = "p%d.%d" % (pi + 1, k + 1)
                 names.append(nm)
-                g.append({"send": "A", "event": nm})
+                g.append({"send": "A", "event": nm, "via": "executor"} if via_exec else {"send": "A", "event": nm})
                 if rng.random() < 0.05:
                     g.append({"sleep_us": rng.randint(1, 300)})
             groups.append(g)
